@@ -552,13 +552,10 @@ fn col_component_eq_compares_identifiers() {
 /// clone_from between tables whose columns have different capacities, followed by growth of the
 /// destination: the destination must keep its OWN capacity bookkeeping (C05: no write past the
 /// block, no release with a foreign size)
-#[kani::proof]
-#[kani::unwind(8)]
-fn col_clone_from_keeps_own_capacity() {
+fn check_clone_from_keeps_own_capacity(big_src: bool) {
     let mut alloc = entity::Allocator::<R>::new();
     let mut src = arch(0b100);
     let mut dst = arch(0b100);
-    let big_src: bool = kani::any();
     // one side reserves a larger buffer
     if big_src {
         unsafe { src.reserve::<(T, entity::Null)>(4) };
@@ -577,6 +574,18 @@ fn col_clone_from_keeps_own_capacity() {
     drop(src);
     drop(dst);
     assert!(all_dead());
+}
+
+#[kani::proof]
+#[kani::unwind(8)]
+fn col_clone_from_keeps_own_capacity_big_source() {
+    check_clone_from_keeps_own_capacity(true);
+}
+
+#[kani::proof]
+#[kani::unwind(8)]
+fn col_clone_from_keeps_own_capacity_big_destination() {
+    check_clone_from_keeps_own_capacity(false);
 }
 
 #[kani::proof]
